@@ -129,3 +129,36 @@ def mux_events(events, ops, snap=None):
     source.pipe(rs.state.with_store(store, list(ops) + [tap(log, snap)])).subscribe(
         on_next=lambda i: None, on_error=lambda e: out_err.append(_err(e)))
     return log, out_err
+
+
+def failing_src(prefix):
+    """cold observable pushing the prefix then failing at the Rx level (on_error): keys are never completed"""
+    def sub(observer, scheduler=None):
+        for i in prefix:
+            observer.on_next(i)
+        observer.on_error(RuntimeError('source failed'))
+    return rx.create(sub)
+
+
+def abort_first(pipe_op, prefix):
+    """first subscription of a pipeline operator (e.g. with_memory_store([...]) or rx.pipe(*ops)) on a source that fails after ``prefix``;
+    outputs are discarded.  Whatever state the operator objects keep outside a subscription is now dirty: a later subscription of the
+    same operator objects (ops.retry, a re-run of a pipeline built once) must behave like a first one."""
+    failing_src(prefix).pipe(pipe_op).subscribe(on_next=lambda i: None, on_error=lambda e: None)
+
+
+def run_timed_after_abort(items, ops, k, mux=True, snap=None):
+    """like run_timed, but the same operator objects first serve a subscription that is aborted after k items"""
+    tr = []
+    cur = [0]
+    snap = snap or (lambda v: v)
+    p = rs.state.with_memory_store(list(ops)) if mux else rx.pipe(*ops)
+    abort_first(p, items[:k])
+    s = Subject()
+    s.pipe(p).subscribe(on_next=lambda v: tr.append((cur[0], snap(v))), on_error=lambda e: tr.append((cur[0], _err(e))))
+    for t, v in enumerate(items):
+        cur[0] = t
+        s.on_next(v)
+    cur[0] = len(items)
+    s.on_completed()
+    return tr
